@@ -785,8 +785,191 @@ fn eval_c25(case: &Case, acc: &Acc) -> Vec<Violation> {
     out
 }
 
+
+// ---------------------------------------------------------------------------------------------
+// C33
+// ---------------------------------------------------------------------------------------------
+
+const NT_MENU: [&str; 26] = [
+    "AB", "A_b", "a_b", "Ab", "A1", "A_1", "A", "A0", "type", "Self", "self", "fn", "match", "Token", "Result", "Box", "Vec", "Option", "ASTType", "GramTrait", "GramAuto", "Gram", "Plus", "EndOfInput", "Error", "SList",
+];
+const T_MENU: [&str; 16] = ["'+'", "\"a-b\"", "\"a_b\"", "'1'", "'_'", "'a b'", "/[0-9]+/", "'\\\\'", "'Plus'", "'plus'", "'é'", "'::'", "'type'", "'a' ?= 'b'", "'a' ?! 'b'", "'%'"];
+const M_MENU: [&str; 8] = ["type", "self", "m", "M", "r", "a_b", "aB", "fn"];
+
+fn c33_grammars(tier: Tier) -> Vec<String> {
+    let mut out = vec![];
+    for lalr in [false, true] {
+        let gt = if lalr { "%grammar_type 'LALR(1)'\n" } else { "" };
+        for (i, x) in NT_MENU.iter().enumerate() {
+            for (j, y) in NT_MENU.iter().enumerate() {
+                if i == j || (tier == Tier::Quick && lalr && (i + j) % 3 != 0) {
+                    continue;
+                }
+                out.push(format!("%start S\n{gt}%%\nS: {x} {y};\n{x}: 'x';\n{y}: 'y';\n"));
+                if (i + j) % 4 == 0 {
+                    out.push(format!("%start S\n{gt}%%\nS: [ {x} ] {{ {y} }} ( {x} | {y} );\n{x}: 'x';\n{y}: 'y' | 'z' {x};\n"));
+                }
+            }
+            // a non-terminal as start symbol
+            out.push(format!("%start {x}\n{gt}%%\n{x}: 'x' [ {x} ];\n"));
+        }
+        for (i, a) in T_MENU.iter().enumerate() {
+            for (j, b) in T_MENU.iter().enumerate() {
+                if i == j {
+                    continue;
+                }
+                out.push(format!("%start S\n{gt}%%\nS: {a} {b} | {b};\n"));
+            }
+            for n in ["Plus", "Minus", "AB", "Percent"] {
+                out.push(format!("%start S\n{gt}%%\nS: {a} {n};\n{n}: 'n';\n"));
+            }
+        }
+        for (i, m1) in M_MENU.iter().enumerate() {
+            for (j, m2) in M_MENU.iter().enumerate() {
+                if j < i {
+                    continue;
+                }
+                out.push(format!("%start S\n{gt}%%\nS: 'a'@{m1} A@{m2} 'b';\nA: 'c';\n"));
+            }
+        }
+    }
+    out
+}
+
+fn ident_ok(s: &str) -> bool {
+    syn::parse_str::<syn::Ident>(s).is_ok() || (s.starts_with("r#") && syn::parse_str::<syn::Ident>(s).is_ok())
+}
+
+fn dups(names: &[String]) -> Vec<String> {
+    let mut seen = std::collections::BTreeSet::new();
+    let mut d = vec![];
+    for n in names {
+        if !seen.insert(n.clone()) && !d.contains(n) {
+            d.push(n.clone());
+        }
+    }
+    d
+}
+
+fn eval_c33(case: &Case, acc: &Acc) -> Vec<Violation> {
+    let mut out = vec![];
+    let short = case.par.replace('\n', " ");
+    let built = match catch(|| crate::bind::builder_generate(&case.par, case.k, &GenCfg::default())) {
+        Ok(Ok(b)) => b,
+        Ok(Err(e)) => {
+            acc.outcome(&format!("rejected: {}", e.chars().take(40).collect::<String>()));
+            return out;
+        }
+        Err(p) => {
+            if p.contains("lalry") {
+                acc.outcome("lalry panic (C26)");
+            } else {
+                out.push(vio("generator_panics", format!("{short}: {}", panic_site(&p)), case, json!({})));
+            }
+            return out;
+        }
+    };
+    acc.outcome("generated");
+    acc.eval(1);
+    acc.distinct(&case.par);
+    // parser file
+    match crate::srcval::read_source(&built.parser) {
+        Err(e) => out.push(vio("generated_parser_is_not_valid_rust_syntax", format!("{short}: {e}"), case, json!({}))),
+        Ok(st) => {
+            for table in ["TERMINAL_NAMES", "NON_TERMINALS"] {
+                if let Some(v) = st.consts.get(table) {
+                    let names: Vec<String> = v.arr().iter().map(|x| x.str().to_string()).collect();
+                    let d = dups(&names);
+                    if !d.is_empty() {
+                        out.push(vio(&format!("duplicate_names_in_{table}"), format!("{short}: {table} contains {d:?} more than once"), case, json!({"names": names})));
+                    }
+                    if table == "TERMINAL_NAMES" {
+                        for n in &names {
+                            if !ident_ok(n) {
+                                out.push(vio("terminal_name_is_not_an_identifier", format!("{short}: terminal name {n:?}"), case, json!({"names": names})));
+                                break;
+                            }
+                        }
+                    }
+                }
+            }
+        }
+    }
+    // trait / AST file
+    match syn::parse_file(&built.actions) {
+        Err(e) => {
+            let msg = e.to_string();
+            out.push(vio("generated_trait_is_not_valid_rust_syntax", format!("{short}: {msg}"), case, json!({"error": msg})));
+        }
+        Ok(f) => {
+            let mut type_names: Vec<String> = vec![];
+            for item in &f.items {
+                match item {
+                    syn::Item::Struct(s) => {
+                        type_names.push(s.ident.to_string());
+                        let fields: Vec<String> = s.fields.iter().filter_map(|f| f.ident.as_ref().map(|i| i.to_string())).collect();
+                        let d = dups(&fields);
+                        if !d.is_empty() {
+                            out.push(vio("duplicate_member_names", format!("{short}: struct {} has the members {d:?} more than once", s.ident), case, json!({})));
+                        }
+                    }
+                    syn::Item::Enum(e) => {
+                        type_names.push(e.ident.to_string());
+                        let vs: Vec<String> = e.variants.iter().map(|v| v.ident.to_string()).collect();
+                        let d = dups(&vs);
+                        if !d.is_empty() {
+                            out.push(vio("duplicate_enum_variants", format!("{short}: enum {} has the variants {d:?} more than once", e.ident), case, json!({})));
+                        }
+                    }
+                    syn::Item::Type(t) => type_names.push(t.ident.to_string()),
+                    syn::Item::Trait(t) => {
+                        type_names.push(t.ident.to_string());
+                        let ms: Vec<String> = t.items.iter().filter_map(|i| if let syn::TraitItem::Fn(f) = i { Some(f.sig.ident.to_string()) } else { None }).collect();
+                        let d = dups(&ms);
+                        if !d.is_empty() {
+                            out.push(vio("duplicate_trait_methods", format!("{short}: trait {} has the methods {d:?} more than once", t.ident), case, json!({})));
+                        }
+                    }
+                    syn::Item::Impl(im) => {
+                        if im.trait_.is_none() {
+                            let ms: Vec<String> = im.items.iter().filter_map(|i| if let syn::ImplItem::Fn(f) = i { Some(f.sig.ident.to_string()) } else { None }).collect();
+                            let d = dups(&ms);
+                            if !d.is_empty() {
+                                out.push(vio("duplicate_methods_in_impl", format!("{short}: an impl block has the methods {d:?} more than once"), case, json!({})));
+                            }
+                        }
+                    }
+                    _ => {}
+                }
+            }
+            let d = dups(&type_names);
+            if !d.is_empty() {
+                out.push(vio("duplicate_type_names", format!("{short}: the generated module defines {d:?} more than once"), case, json!({"types": type_names})));
+            }
+        }
+    }
+    // narrow the classes: which non-terminal name is the cause?
+    let nts: Vec<String> = case.par.lines().filter_map(|l| l.split(':').next().filter(|_| l.contains(':') && !l.starts_with('%')).map(|n| n.trim().to_string())).collect();
+    let strict_kw = ["Self", "self", "crate", "super"];
+    let generated_items = ["GramTrait", "GramAuto", "Gram", "ASTType"];
+    let cause = nts
+        .iter()
+        .find(|n| strict_kw.contains(&n.as_str()))
+        .map(|n| format!("non_terminal_named_{n}"))
+        .or_else(|| nts.iter().find(|n| generated_items.contains(&n.as_str())).map(|n| format!("non_terminal_named_like_generated_item_{n}")));
+    if let Some(c) = cause {
+        for v in out.iter_mut() {
+            v.class = format!("{}({c})", v.class);
+        }
+    }
+    if acc.want_sample() && out.is_empty() {
+        acc.sample(json!({"grammar": short}));
+    }
+    out
+}
+
 pub fn run(id: &str, tier: Tier, replay: Option<&str>) -> i32 {
-    let eval: fn(&Case, &Acc) -> Vec<Violation> = if id == "C18" { eval_c18 } else if id == "C25" { eval_c25 } else { eval_c21 };
+    let eval: fn(&Case, &Acc) -> Vec<Violation> = if id == "C18" { eval_c18 } else if id == "C25" { eval_c25 } else if id == "C33" { eval_c33 } else { eval_c21 };
     if let Some(p) = replay {
         let v = read_replay(p);
         let case: Case = serde_json::from_value(v["case"].clone()).expect("bad replay case");
@@ -799,6 +982,10 @@ pub fn run(id: &str, tier: Tier, replay: Option<&str>) -> i32 {
         gs = gs.into_iter().step_by(tier.pick(4, 1)).collect();
         gs.extend(c25_grammars(tier));
     }
+    if id == "C33" {
+        gs = gs.into_iter().step_by(tier.pick(12, 3)).collect();
+        gs.extend(c33_grammars(tier));
+    }
     let cases: Vec<Case> = gs.into_iter().map(|par| Case { par, k: 3 }).collect();
     acc.count("grammars", cases.len() as u64);
     cases.par_iter().for_each(|c| {
@@ -810,7 +997,13 @@ pub fn run(id: &str, tier: Tier, replay: Option<&str>) -> i32 {
             acc.violation(v);
         }
     });
-    let (level, rule, extra) = if id == "C25" {
+    let (level, rule, extra) = if id == "C33" {
+        (
+            "exploration",
+            format!("grammars generated by the real Builder (parser + trait/AST source, rustfmt included): every ordered pair of non-terminal names from a menu of {} (case/underscore variants that collapse under case conversion, trailing digits, Rust keywords incl. Self, names the generated code imports or defines: Token Result Box Vec Option ASTType GramTrait GramAuto Gram, built-in terminal names, helper names) in two skeletons, every ordered pair of terminals from a menu of {} (texts mapping to equal / empty / digit-leading names, lookaheads) also next to non-terminals named like them, every pair of member names from {:?}, plus a slice of the C18 space; LL and LALR. Oracle (syn): both generated files are syntactically valid Rust; TERMINAL_NAMES entries are identifiers and pairwise distinct; NON_TERMINALS distinct; type names of the generated module, members per struct, variants per enum, methods per trait/impl pairwise distinct; no generated type is named like a type the generated code uses unqualified.", NT_MENU.len(), T_MENU.len(), M_MENU),
+            json!({}),
+        )
+    } else if id == "C25" {
         (
             "exploration",
             "grammars: 4 bodies x ordered pairs of 5 terminals (raw / string / regex, positive and negative lookahead) x 5 decorations per symbol (none, ^, @m, : UT, @m : path) x 10 declaration headers (title/comment, %user_type, %nt_type, %t_type, line and block comments in all literal styles, %auto_newline_off, %auto_ws_off, %allow_unmatched) x LL/LALR (a fixed residue class of the product in the quick tier), two-state scanner configurations with every directive inside and every enter/push/pop combination, plus the C18 space; each grammar as read and after check_and_transform_grammar is rendered with render_par_string and read back; oracle: start symbol, grammar type, every production symbol (text, kind class, scanner states, clipping, member name, user type, lookahead), declarations and every ScannerConfig field are equal.".to_string(),
